@@ -21,6 +21,8 @@ import Nstd.Args.Kernel
     late <order> <mask> <ms> <code>         → late ok=1 pipes=<p> exit=<code|-> completed=<0|1>
          order = join | dtor | readjoin | closejoin | kill; exit/completed come from the join-first pipe model
          `Kernel.SysJ.exec` with join() as coded (`joinProgram`); `kill` assumes the child is still waiting
+    eofjoin <join|dtor> <mask> <n> <code>   → ej ok=1 pipes=<p> exit=<code|->      (the child reads stdin to the end first;
+         `Kernel.SysJ.exec` with `reads := true` and three pending input bytes)
     sig <mask> <signal>                     → sig ok=1 pipes=<p>
     killbusy <mask>                         → kb ok=1 pipes=<p>
     fdtable <streams>                       → ft ok=1 out=<holders> err=<holders> in=<holders>
@@ -171,12 +173,24 @@ def stepLine' (pe : PEnv) (ws : List String) : String :=
         let show1 (r : Option Nat × Bool) (withCode : Bool) : String :=
           s!"late ok=1 pipes={m} exit={if withCode then (match r.1 with | some x => toString x | none => "-") else "-"} completed={b01 r.2}"
         if order == "join" || order == "readjoin" then
-          show1 (Kernel.SysJ.exec 200 (Kernel.SysJ.init 65536 Kernel.joinProgram out err c)) true
+          show1 (Kernel.SysJ.exec 200 (Kernel.SysJ.init 65536 Kernel.joinProgram (m / 4 % 2 == 1) (m % 2 == 1) (m / 2 % 2 == 1) false [] out err c)) true
         else if order == "dtor" then
-          show1 (Kernel.SysJ.exec 200 (Kernel.SysJ.init 65536 Kernel.joinProgram out err c)) false
+          show1 (Kernel.SysJ.exec 200 (Kernel.SysJ.init 65536 Kernel.joinProgram (m / 4 % 2 == 1) (m % 2 == 1) (m / 2 % 2 == 1) false [] out err c)) false
         else if order == "closejoin" then
-          show1 (Kernel.SysJ.exec 200 (Kernel.SysJ.init 65536 ([.closeIn, .closeOut, .closeErr] ++ Kernel.joinProgram) out err c)) true
+          show1 (Kernel.SysJ.exec 200 (Kernel.SysJ.init 65536 ([.closeIn, .closeOut, .closeErr] ++ Kernel.joinProgram) (m / 4 % 2 == 1) (m % 2 == 1) (m / 2 % 2 == 1) false [] out err c)) true
         else if order == "kill" then s!"late ok=1 pipes={m} exit=- completed=0"
+        else "bad-op"
+      | _, _, _ => "bad-op"
+    | ["eofjoin", order, m, n, code] =>
+      match m.toNat?, n.toNat?, code.toNat? with
+      | some m, some n, some c =>
+        let m := m % 4 + 4
+        let data := (List.range n).map (fun _ => 120)
+        let r := Kernel.SysJ.exec (2 * n + 64) (Kernel.SysJ.init 65536 Kernel.joinProgram true (m % 2 == 1) (m / 2 % 2 == 1) true
+          [97, 98, 99] (if m % 2 == 1 then data else []) (if m / 2 % 2 == 1 then data else []) c)
+        if order == "join" then
+          s!"ej ok=1 pipes={m} exit={match r.1 with | some x => toString x | none => "never"}"
+        else if order == "dtor" then (if r.1.isSome then s!"ej ok=1 pipes={m} exit=-" else s!"ej ok=1 pipes={m} exit=never")
         else "bad-op"
       | _, _, _ => "bad-op"
     | ["sig", m, sg] =>
